@@ -21,11 +21,14 @@
 (* Late callers reach a ready connection only after all its early callers  *)
 (* have re-reserved (earlyReserveCallWg).                                  *)
 (* Deviation DOUBLE_COUNT (D5): the real connection counts a written query *)
-(* twice when it decides about a reservation.                              *)
+(* twice when it decides about a reservation.  Deviation DONE_EARLY: the   *)
+(* early caller's wg.Done() precedes its re-reservation, a late caller can *)
+(* take its slot.                                                          *)
 (***************************************************************************)
 EXTENDS Integers, FiniteSets, Sequences, TLC
 
-CONSTANTS Callers, Slots, QLimits, CLimits, MaxCalls, MaxDialFail, DOUBLE_COUNT
+CONSTANTS Callers, Slots, QLimits, CLimits, MaxCalls, MaxDialFail, DOUBLE_COUNT,
+          DONE_EARLY   \* deviation: an early caller signals earlyReserveCallWg.Done() BEFORE it re-reserves
 
 VARIABLES qlim, clim,
           cst,      \* slot -> "none" | "new" (dial goroutine not yet in the dial func) | "dialing" |
@@ -115,15 +118,23 @@ EndOrRetry(c, e) ==
     \/ /\ ~creator[c] /\ tries[c] < 2
        /\ pc' = [pc EXCEPT ![c] = "calling"] /\ tries' = [tries EXCEPT ![c] = @ + 1] /\ UNCHANGED res
 
+\* Design: an early caller leaves the early set (wg.Done) only together with its re-reservation on the dialed
+\* connection, so later callers (AttachReady needs early = {}) cannot overtake it.  Deviation DONE_EARLY: Done first.
+EarlyDone(c) ==
+    /\ DONE_EARLY /\ pc[c] = "early" /\ cst[at[c]] = "ready"
+    /\ early' = [early EXCEPT ![at[c]] = @ \ {c}]
+    /\ pc' = [pc EXCEPT ![c] = "rereserve"]
+    /\ UNCHANGED <<qlim, clim, cst, name, inuse, at, res, tries, calls, creator, replied, ndialfail, spurious>>
+
 EarlyAdmit(c) ==
-    /\ pc[c] = "early" /\ cst[at[c]] = "ready" /\ Counted(at[c]) < clim
+    /\ pc[c] \in {"early", "rereserve"} /\ cst[at[c]] = "ready" /\ Counted(at[c]) < clim
     /\ early' = [early EXCEPT ![at[c]] = @ \ {c}]
     /\ inuse' = [inuse EXCEPT ![at[c]] = @ \cup {c}]
     /\ pc' = [pc EXCEPT ![c] = "admitted"]
     /\ UNCHANGED <<qlim, clim, cst, name, at, res, tries, calls, creator, replied, ndialfail, spurious>>
 
 EarlyRefuse(c) ==
-    /\ pc[c] = "early" /\ cst[at[c]] = "ready" /\ Counted(at[c]) >= clim
+    /\ pc[c] \in {"early", "rereserve"} /\ cst[at[c]] = "ready" /\ Counted(at[c]) >= clim
     /\ early' = [early EXCEPT ![at[c]] = @ \ {c}]
     /\ spurious' = (spurious \/ Cardinality(inuse[at[c]]) < clim)
     /\ EndOrRetry(c, "refused")
@@ -162,7 +173,7 @@ Return(c) ==
     /\ UNCHANGED <<qlim, clim, cst, name, early, inuse, res, tries, creator, ndialfail, spurious>>
 
 Next ==
-    \/ \E c \in Callers : Call(c) \/ EarlyAdmit(c) \/ EarlyRefuse(c) \/ EarlyFail(c) \/ Write(c) \/ Reply(c)
+    \/ \E c \in Callers : Call(c) \/ EarlyDone(c) \/ EarlyAdmit(c) \/ EarlyRefuse(c) \/ EarlyFail(c) \/ Write(c) \/ Reply(c)
                           \/ Finish(c) \/ Release(c) \/ Return(c)
     \/ \E c \in Callers, s \in Slots : AttachEarly(c, s) \/ AttachReady(c, s) \/ AttachNew(c, s)
     \/ \E s \in Slots : DialStart(s, s) \/ DialOk(s) \/ DialFail(s) \/ DialPublish(s)
